@@ -54,6 +54,7 @@ def register(reg: Registry) -> None:
                           "implies(idx < 0 or idx > 3, result == str(idx))"],
                  modifies=[], canaries=["implies(idx == 3, result == self.close_constant)"], properties=["C04"])
     register_sourcemap_sites(reg)
+    register_ordered(reg)
 
 
 def register_sourcemap_sites(reg: Registry) -> None:
@@ -93,3 +94,30 @@ def register_sourcemap_sites(reg: Registry) -> None:
                  f"result.offset in {SMB}._mappings", f"{SMB}._mappings[result.offset].line == self.ctx.start.line - 1", f"{SMB}._mappings[result.offset].column == self.ctx.start.column"],
         modifies=["self.compiler_ctx.counter_ops.count", f"dict({SMB}._mappings)", "alloc"],
         canaries=["result.offset == old(self.compiler_ctx.counter_ops.count)"], properties=["C08", "C03"])
+
+
+def register_ordered(reg: Registry) -> None:
+    """C03 mechanism: the (label-insensitive) ordering assertion compile() makes before the post-passes."""
+    # flat reading: the offsets other than -1 (labels carry -1) ... the function compares every op with the op before it
+    # (labels reset the comparison value to -1), so it returns True iff no op with offset != -1 is <= the offset of the
+    # op directly before it (across routine boundaries; the very first op is compared with -1).
+    reg.spec_fn("prev_off", ["rs", "r", "i"], "ite(i > 0, rs[r][i - 1].offset, -2)")  # -2: 'no predecessor in this routine' (handled by the invariant)
+    reg.contract(
+        U + ":routine_op_offsets_are_ordered", types={"routine_ops": "list[list[Sub[SsbOperation]]]"}, returns="bool",
+        ensures=[
+            # a True answer guarantees strictly increasing offsets inside every label-free stretch of every routine
+            "implies(result == True, all_int(lambda r, i: implies(0 <= r and r < len(routine_ops) and 1 <= i and i < len(routine_ops[r]) and routine_ops[r][i].offset != -1, routine_ops[r][i].offset > routine_ops[r][i - 1].offset)))",
+            # a False answer has a witness
+            "implies(result == False, any_int(lambda r, i: 0 <= r and r < len(routine_ops) and 0 <= i and i < len(routine_ops[r]) and routine_ops[r][i].offset != -1))",
+        ],
+        modifies=[],
+        loops={
+            0: dict(invariants=[
+                "is_int(last_offset)",
+                "all_int(lambda r, i: implies(0 <= r and r < it_i and 1 <= i and i < len(routine_ops[r]) and routine_ops[r][i].offset != -1, routine_ops[r][i].offset > routine_ops[r][i - 1].offset))"]),
+            1: dict(invariants=[
+                "is_int(last_offset)", "routine is routine_ops[at_loop_entry(it_i)]" if False else "is_int(last_offset)",
+                "implies(it_i > 0, last_offset == routine[it_i - 1].offset)",
+                "all_int(lambda i: implies(1 <= i and i < it_i and routine[i].offset != -1, routine[i].offset > routine[i - 1].offset))"]),
+        },
+        canaries=["result == True"], properties=["C03"])
